@@ -343,6 +343,22 @@ fn oracle_all() {
         s += "}\n";
         projects.push(vec![(0, s)]);
     }
+    // ---- family 7 (C13): rewriting the body of an imported item (same package, name, kind) must not change the importer's result
+    {
+        let user = "package p; import q.S; import q.D; interface U { void f(in S s, in S[] a, D d, in List<D> l); }";
+        let bodies_s = ["package q; interface S { void a(); }", "package q; interface S { void a() = 4294967296; }", "package q; interface S { void a(); oops oops; void b(in int[] x); }", "package q; /** doc */ interface S { const int K = 3; }"];
+        let bodies_d = ["package q; parcelable D { int x; }", "package q; parcelable D { int x; junk junk junk; String s; }", "package q; parcelable D { }"];
+        let snap = |fs: &[(u32, String)]| { let mut p = Parser::new(); for (i, s) in fs { p.add_content(*i, s); } let r = p.validate(); format!("{:?}|{:?}", r[&0].ast, r[&0].diagnostics) };
+        let base = snap(&[(0, user.to_owned()), (1, bodies_s[0].to_owned()), (2, bodies_d[0].to_owned())]);
+        for bs in bodies_s.iter() { for bd in bodies_d.iter() {
+            n += 1;
+            let got = snap(&[(0, user.to_owned()), (1, bs.to_string()), (2, bd.to_string()), (3, "package z; enum Unrelated { A }".to_owned())]);
+            if got != base { findings.push(format!("WITNESS property=C13 the importer's result changed although only the bodies of the imported items were rewritten (same package, name, kind): S = {:?}, D = {:?}", bs, bd)); }
+        } }
+        // negative control of the statement: changing the kind must change the result
+        let changed = snap(&[(0, user.to_owned()), (1, "package q; parcelable S { int x; }".to_owned()), (2, bodies_d[0].to_owned())]);
+        if changed == base { findings.push("WITNESS property=C13 changing the kind of an imported item did not change the importer's result".to_owned()); }
+    }
     n += projects.len();
     let chunks: Vec<&[Vec<(u32, String)>]> = projects.chunks((projects.len() + 13) / 14).collect();
     let results: Vec<Vec<String>> = std::thread::scope(|sc| {
